@@ -162,18 +162,47 @@ def kind_of(r):
   return "other"
 
 
+# A seed document whose formulas notice the Python TYPE of list-valued cells (tuple vs list,
+# hashable or not), not only their encoded form: lookups keyed by a ChoiceList / RefList cell, sets
+# and dict keys built from such cells, tuple concatenation and comparison.
+_col = gen._col
+gen.SEEDS["c07_lists"] = [
+  [["AddTable", "Tasks", [
+    _col("title", "Text"), _col("tags", "ChoiceList"), _col("deps", "RefList:Tasks"),
+    _col("same_tags", "Any", "len(Tasks.lookupRecords(tags=$tags))"),
+    _col("with_tag", "Any", "len(Tasks.lookupRecords(tags=CONTAINS($title)))"),
+    _col("all_tags", "Any", "sorted(set(Tasks.all.tags), key=repr)"),
+    _col("plus", "Any", "$tags + ('x',)"),
+    _col("is_a", "Any", "$tags == ('a',)"),
+    _col("as_key", "Any", "{$tags: $title}.get($tags)"),
+    _col("tag_type", "Any", "type($tags).__name__"),
+    _col("same_deps", "Any", "len(Tasks.lookupRecords(deps=$deps))"),
+    _col("dep_ids", "Any", "sorted(set(r.id for r in $deps))"),
+    _col("rev", "Any", "[r.id for r in Tasks.lookupRecords(deps=CONTAINS($id))]"),
+  ]]],
+  [["BulkAddRecord", "Tasks", [None, None, None, None],
+    {"title": ["a", "b", "c", "d"], "tags": [["L", "a"], ["L", "a"], ["L", "a", "b"], None],
+     "deps": [["L", 2, 3], ["L", 2, 3], None, ["L", 1]]}]],
+  [["UpdateRecord", "Tasks", 3, {"tags": ["L", "a"]}]],
+]
+
+
 class C07Monitor(explore.Monitor):
   seeds = ("basic", "refs", "lookup", "summary", "twoway", "twoway_list", "trigger", "prevnext",
-           "choices")
+           "choices", "c07_lists")
   length = 8
   weights = {"modify_type": 7, "update": 14, "bulk_update": 7, "add": 10, "invalid": 1}
 
   def start(self, e, seed_name):
-    return {"types": {}}
+    st = {"types": {}, "first": self.after({}, e, [], True, None)}   # the seed document itself
+    return st
 
   def after(self, st, e, bundle, group, exc):
     if exc is not None:
       return []
+    if st.get("first"):                 # a failure of the seed document, reported at bundle 1
+      f, st["first"] = st["first"], None
+      return f
     try:
       saved = save(e)
       f, g = reopen(saved)
